@@ -365,7 +365,12 @@ def family(t, sd):
     ms = gen.m1_family(0)[:: (9 if t == 'quick' else 2)] + gen.seeded_models(61 + sd, 1500 if t == 'quick' else 20000, maxd=3, names=True)
     # names a compilation produces from indexed variables (x_{i-1} at i = 0 is x_-1): '-' is an operator in the LP format
     styles = gen.NAME_STYLES + [{'x': 'x_-1', 'y': 'y_0_-2', 'z': 'z_-1_-1', 'p': 'p_-1_3', 'q': 'q_2_-1_-5'}]
+    orig = ms
     ms = [dict(m, model=gen.rename_vars(m['model'], styles[i % 4])) if i % 4 else m for i, m in enumerate(ms)]
+    # ... and the valid name such a rewrite would produce (x__1) declared in the same model, before or after it: the
+    # exporter must keep the two apart whatever the declaration order
+    coll = [{'x': 'x_-1', 'y': 'x__1', 'z': 'z_-1_-1', 'p': 'z__1__1'}, {'y': 'x_-1', 'x': 'x__1', 'p': 'z_-1_-1', 'z': 'z__1__1'}]
+    ms += [dict(m, model=gen.rename_vars(m['model'], coll[j % 2])) for j, m in enumerate(orig[::5])]
     items += [{'model': m['model']} for m in ms]
     lim = os.environ.get('VERIF_LIMIT')
     if lim:
